@@ -1274,9 +1274,10 @@ func (r *Raft) sendRequestVote(id string, address string, votes *int, prevote bo
 	r.mu.Lock()
 	defer r.mu.Unlock()
 
-	// Do not send requests to non-voting members and only send
+	// Do not send requests if this node has been shut down in the meantime - its
+	// log is closed. Do not send requests to non-voting members and only send
 	// requests if this node is a voting member of the cluster.
-	if !r.isVoter(id) || !r.isVoter(r.id) {
+	if r.state == Shutdown || !r.isVoter(id) || !r.isVoter(r.id) {
 		return
 	}
 
